@@ -506,6 +506,11 @@ ITEMS = {
     "qge": ["#ifdef QEMU_GENERATE", "#define F(x) f3(x, \\", "    ctx)", "#else", "#define F(x) f4(x)", "#endif"],
     "uo": ["#ifdef CONFIG_USER_ONLY", "#define G(x, y) do { } while (0) /* nothing */", "#else", "#define G(x, y) g5(x, y);", "#endif"],
     "uo1": ["#ifdef CONFIG_USER_ONLY", "#define B b8", "#endif"],
+    # negated guards of the two special symbols (both are undefined: the block is active), and guards of other symbols
+    "qgn": ["#ifndef QEMU_GENERATE", "#define A (a4)", "#endif"],
+    "uone": ["#ifndef CONFIG_USER_ONLY", "#define B b14", "#else", "#define B b15", "#endif"],
+    "oth": ["#ifdef TARGET_SOMETHING", "#define A (a5)", "#endif"],
+    "othn": ["#ifndef TARGET_SOMETHING", "#define F(x) f6(x)", "#endif"],
     "cm1": ["/* #define A (c1) */"],
     "cm2": ["// #define A (c2)"],
     "cm3": ["/*", " * #define B c3", " */"],
